@@ -33,7 +33,7 @@ THRESHOLDS = {
 MH_BOUNDARY = [
     ["IntRange", 0, 0], ["IntRange", -3, -3], ["IntRange", -1, 1], ["IntRange", 5, 2005], ["IntRange", 0, 1],
     ["IntList", [7]], ["IntList", [0, 1]], ["IntList", [-2, 4, 9]],
-    ["FloatRange", 0.0, 0.0], ["FloatRange", -1.5, 2.0], ["FloatRange", 0.25, 10.25],
+    ["FloatRange", 0, 9], ["FloatRange", 2, 2], ["FloatRange", 1, 5], ["FloatRange", 0.0, 0.0], ["FloatRange", -1.5, 2.0], ["FloatRange", 0.25, 10.25],
     ["FloatList", [0.5]], ["FloatList", [-2.5, 2.5, 7.0]],
     ["VarRange", ["x"]], ["VarRange", ["x", "y", "z"]],
     ["ListSizeBetween", 0, 0], ["ListSizeBetween", 0, 2], ["ListSizeBetween", 2, 2], ["ListSizeBetween", 1, 3],
